@@ -112,7 +112,16 @@ pub fn gen(seed: u64, thorough: bool) {
             let trefs: Vec<&str> = timed.iter().map(|s| s.as_str()).collect();
             let a = e.synthesize(timed.clone()).unwrap();
             let b = e.synthesize(&trefs[..]).unwrap();
-            if bits_eq(&a, &b) { w_slice.clone() } else { a }
+            // … and the array-reference form of the stamped lines (seeded change C17k: that form alone converted the stamps
+            // with rate and frame period swapped)
+            let c = match timed.len() {
+                1 => e.synthesize(&[timed[0].clone()]).unwrap(),
+                2 => e.synthesize(&[timed[0].clone(), timed[1].clone()]).unwrap(),
+                3 => e.synthesize(&[timed[0].clone(), timed[1].clone(), timed[2].clone()]).unwrap(),
+                4 => e.synthesize(&[timed[0].clone(), timed[1].clone(), timed[2].clone(), timed[3].clone()]).unwrap(),
+                _ => a.clone(),
+            };
+            if bits_eq(&a, &b) && bits_eq(&a, &c) { w_slice.clone() } else { a }
         } else { e.synthesize(timed.clone()).unwrap() };
         let mut line = format!("forms {} {}", kind, n);
         push_u(&mut line, bits_eq(&w_slice, &w_vec) as usize);
